@@ -22,7 +22,7 @@ INFO = {
                    "Merkle-path shape check (equal vector lengths, binary direction values) guards proof_values_from_witness and "
                    "inputs_for_witness_calculation; a position outside the tree is propagated as Err. R12-3: every success path of a "
                    "proving entry point must pass through a check that the witness satisfies the circuit or a verification of the "
-                   "produced proof before writing output. R12-4 whole-message writes: the proving and witness-export entry points emit output only through write_all / serialize_compressed, never through Write::write whose count could be short. R12-5 fixed hashing arity: every Poseidon / tree-hasher call site outside the four pass-through wrappers passes an array literal of 1..8 elements (premise of classifying Poseidon's own indexing as internal). R12-6 (shared with C05 R05-1): nothing process-wide (a cache of the decoded graph, a thread-local scratch buffer, any static or interior-mutable state) is reachable from the witness calculation. R12-7 (shared with C01 R01-3): the prover hashes exactly the signal_len bytes of the signal and takes the request's field elements whole, as the verifier will read them. R12-8 (shared with C07): the tree lookup behind proving returns Err for a position outside the tree and the stored path otherwise, in the three back ends.",
+                   "produced proof before writing output. R12-4 whole-message writes: the proving and witness-export entry points emit output only through write_all / serialize_compressed, never through Write::write whose count could be short. R12-5 fixed hashing arity: every Poseidon / tree-hasher call site outside the four pass-through wrappers passes an array literal of 1..8 elements (premise of classifying Poseidon's own indexing as internal). R12-6 (shared with C05 R05-1): nothing process-wide (a cache of the decoded graph, a thread-local scratch buffer, any static or interior-mutable state) is reachable from the witness calculation. R12-7 (shared with C01 R01-3): the prover hashes exactly the signal_len bytes of the signal and takes the request's field elements whole, as the verifier will read them. R12-8 (shared with C07): the tree lookup behind proving returns Err for a position outside the tree and the stored path otherwise, in the three back ends. R12-9 (shared, C11 R11-3 / R11-6): the three proving wrappers return false on Err and cannot panic inside the extern \"C\" function.",
     "not_decided": "which requests the circuit can satisfy (circuit semantics: e.g. message_id or limit beyond the circuit's 16-bit range); "
                    "panics inside arkworks' prover",
     "assumptions": ["in-memory lengths are below 2^48, so len*32 + small does not overflow usize", "the instance's graph and key were accepted at construction (resource class)"],
